@@ -264,7 +264,6 @@ Definition sloc (loc part : string) : string := loc ++ ":spec." ++ part.
 
 Definition msg_bad_locals : string := "Invalid `locals` expression type".
 
-Definition trace_pre (r : option raw) : list site := match r with None => [] | Some _ => [SPre] end.
 Definition trace_of (s : site) (r : option raw) : list site := match r with None => [] | Some _ => [s] end.
 
 (* result and the list of sites whose expression was handed to celpy, in order.
